@@ -456,7 +456,6 @@ func cmdRun(args []string) int {
 			}
 			sort.Strings(he.Known)
 			// violations: dedupe by (kind,id), replay natively
-			seenV := map[string]bool{}
 			if *verbose {
 				shown := map[string]bool{}
 				for _, v := range rep.Violations {
@@ -467,25 +466,62 @@ func cmdRun(args []string) int {
 					}
 				}
 			}
-			for _, v := range rep.Violations {
+			// candidates are grouped by what they violate; within a group they are tried in a
+			// fixed order until one reproduces natively (one unlucky candidate - e.g. one that
+			// only exists because of an uninterpreted-function stub - must not hide the others)
+			keyOf := func(v *interp.Violation) string {
 				key := v.Kind + "|" + v.ID
-				if v.Kind == "race" {
-					key = v.Kind + "|" + v.ID
-				} else if v.Kind != "assert" {
+				if v.Kind != "assert" && v.Kind != "race" {
 					key = v.Kind + "|" + v.Msg
 					if v.Panic != nil {
 						key = v.Kind + "|" + v.Panic.Site
 					}
 				}
-				if seenV[key] {
-					continue
+				return key
+			}
+			groups := map[string][]*interp.Violation{}
+			var groupOrder []string
+			for _, v := range rep.Violations {
+				k := keyOf(v)
+				if len(groups[k]) == 0 {
+					groupOrder = append(groupOrder, k)
 				}
-				seenV[key] = true
-				path := writeReplay(rc, v, len(violationLines))
-				confirmed, detail := true, "not replayed"
-				if !*noReplay {
+				groups[k] = append(groups[k], v)
+			}
+			sort.Strings(groupOrder)
+			maxTry := 12
+			if rc.repeat > 1 {
+				maxTry = 3
+			}
+			for _, k := range groupOrder {
+				cands := groups[k]
+				sort.SliceStable(cands, func(a, b int) bool { return describe(cands[a]) < describe(cands[b]) })
+				tried := map[string]bool{}
+				var v *interp.Violation
+				confirmed, detail, path := false, "not replayed", ""
+				for _, c := range cands {
+					d := describe(c)
+					if tried[d] {
+						continue
+					}
+					if len(tried) >= maxTry {
+						break
+					}
+					tried[d] = true
+					v = c
+					path = writeReplay(rc, c, len(violationLines))
+					if *noReplay {
+						confirmed = true
+						break
+					}
 					confirmed, detail = replayNative(path, *verbose)
 					nativeRuns++
+					if confirmed || strings.HasPrefix(detail, "native build failed") {
+						break
+					}
+				}
+				if len(tried) > 1 {
+					detail += fmt.Sprintf(" [candidate %d of %d tried]", len(tried), len(cands))
 				}
 				if confirmed {
 					violations++
